@@ -36,6 +36,7 @@ fn main() {
     let (prop, level, run, rep): (&'static str, &'static str, fn(&Ctx), fn(&Ctx, &serde_json::Value)) = match id.as_str() {
         "C01" => ("C01", "exploration", props::c01::run, props::c01::replay),
         "C12" => ("C12", "exploration", props::c12::run_check, props::c12::replay),
+        "C05" => ("C05", "exploration", props::c05::run_check, props::c05::replay),
         "C06" => ("C06", "exploration", props::c06::run_check, props::c06::replay),
         "C08" => ("C08", "exploration", props::c08::run_check, props::c08::replay),
         "C10" => ("C10", "exploration", props::c10::run_check, props::c10::replay),
